@@ -132,9 +132,18 @@ func runTask(t *Task) *Result {
 	}
 	eager := EagerPairs(sc)
 	eagerSeen := map[string]bool{}
+	wantSched, sawSched := WantsSchedulerReport(sc), false
 	st, terr := vs.Explore(opt, body, func(ex *vs.Exec) bool {
 		for _, k := range EagerWitnessed(cur, eager) {
 			eagerSeen[k] = true
+		}
+		if wantSched && !sawSched {
+			for _, e := range cur.Emits {
+				if e.Scope == "sched" && e.Em == 0 {
+					sawSched = true
+					break
+				}
+			}
 		}
 		vis := Visible(cur, ex)
 		h := fnv.New64a()
@@ -173,6 +182,10 @@ func runTask(t *Task) *Result {
 				break
 			}
 		}
+	}
+	if terr == "" && st.Exhaustive && sc.PreemptBound == 0 && len(res.Violations) == 0 && wantSched && !sawSched {
+		res.Violations = append(res.Violations, Violation{Prop: "C18", Space: true, Visible: "(whole exploration)",
+			Msg: fmt.Sprintf("in none of the %d schedules explored did the user's emitter receive a scheduler state report, although the ticker may fire %d time(s) while the directive runs: an emitter in this configuration does not receive what it would receive alone", st.Complete, sc.Ticks)})
 	}
 	res.Visibles = len(visibles)
 	for o := range outcomes {
